@@ -12,7 +12,8 @@ RULE = ('Same windows as C12 (every start date 2019-12-01..2024-03-31 x start ti
         'to Monday keeping the time of day); every weekly/daily/end-of-month instant must be a timestamp emitted by '
         'the real simulation clock for the same range; non-weekday names must raise ValueError. Non-trivial: a range '
         '>= 7 days holding a month end (window) / a month end that falls on a weekend (random); distinct = (start, '
-        'length).')
+        'length).'
+        ' Also: schedules are rebuilt and re-checked after a BacktestTradingSession with a burn-in over the same range was constructed in the same process; starts with seconds/microseconds; prefix look-alikes of weekday names.')
 ASSUMPTIONS = ['UTC timestamps; end time-of-day not before the start\'s (the quantifier)']
 EXHAUSTIVE = {'thorough': 'all (start date in 2019-12-01..2024-03-31) x (start 00:00|14:30) x (length 0..45 d) x '
                           '(5 weekdays x 2 flags + daily x 2 + end-of-month x 2 + buy-and-hold)'}
